@@ -19,13 +19,16 @@ import forest as F  # noqa: E402
 
 CONFIGS = {
     'quick': [('MC_GenSubst_q1.cfg', 900), ('MC_GenSubst_q2.cfg', 900),
-              ('MC_GenSubst_q3.cfg', 900), ('MC_GenSubst_q4.cfg', 900)],
+              ('MC_GenSubst_q3.cfg', 900), ('MC_GenSubst_q4.cfg', 900),
+              ('MC_GenSubst_q5.cfg', 900)],
     'thorough': [('MC_GenSubst_t1.cfg', 3000), ('MC_GenSubst_t2.cfg', 3000),
-                 ('MC_GenSubst_t3.cfg', 3000), ('MC_GenSubst_t4.cfg', 3000)],
+                 ('MC_GenSubst_t3.cfg', 3000), ('MC_GenSubst_t4.cfg', 3000),
+                 ('MC_GenSubst_t5.cfg', 3000)],
 }
 
 
-TLIMIT = 0.25  # seconds; the inputs have <= 6 nodes (microseconds of work)
+TLIMIT = 0.25  # seconds of CPU time of this process (not wall time: the
+# machine may be loaded); the inputs have <= 6 nodes (microseconds of work)
 
 
 class Timeout(Exception):
@@ -59,8 +62,8 @@ def run_case(mods, recs, simp, obs):
     decls = F.build_nodes(Node, simp['decls'], expand, cache)
     s = mu.Simplification(substs, decls)
     bad = []
-    signal.signal(signal.SIGALRM, _alarm)
-    signal.setitimer(signal.ITIMER_REAL, TLIMIT)
+    signal.signal(signal.SIGVTALRM, _alarm)
+    signal.setitimer(signal.ITIMER_VIRTUAL, TLIMIT)
     try:
         res = mu.apply_simp(base, s)
     except Timeout:
@@ -69,7 +72,7 @@ def run_case(mods, recs, simp, obs):
     except Exception as e:  # noqa
         return [('exception', 'apply_simp raised ' + repr(e))]
     finally:
-        signal.setitimer(signal.ITIMER_REAL, 0)
+        signal.setitimer(signal.ITIMER_VIRTUAL, 0)
     if F.ids_nested(base) != before:
         bad.append(('base-modified', 'the base was modified in place'))
     if isinstance(res, Node):
